@@ -181,7 +181,8 @@ fn accessor_mismatch(e: &Event, mask: u32) -> Option<String> {
 // ---------------------------------------------------------------------------------------------
 // Generation
 
-const WATCH_POOL: [&str; 8] = ["d0", "d1/", "d0/sub", "f0", "d0/", "./d1", "d1//", "d0/sub/."];
+/// Watched paths relative to the case's directory; two of them are not valid UTF-8 (legal on Linux).
+const WATCH_POOL: [&[u8]; 11] = [b"d0", b"d1/", b"d0/sub", b"f0", b"d0/", b"./d1", b"d1//", b"d0/sub/.", b"d\xe9", b"d\xe9/", b"f\xff\xfe"];
 
 fn gen_name(r: &mut Rng) -> Vec<u8> {
     let len = match r.below(16) {
@@ -333,6 +334,12 @@ fn one_case(r: &mut Rng, index: usize, silent_panic: &Arc<Mutex<Option<String>>>
     std::fs::create_dir_all(format!("{tmp}/d0/sub")).unwrap();
     std::fs::create_dir_all(format!("{tmp}/d1")).unwrap();
     std::fs::write(format!("{tmp}/f0"), b"x").unwrap();
+    {
+        use std::os::unix::ffi::OsStringExt;
+        let p = |rel: &[u8]| PathBuf::from(std::ffi::OsString::from_vec([tmp.as_bytes(), b"/", rel].concat()));
+        std::fs::create_dir_all(p(b"d\xe9")).unwrap();
+        std::fs::write(p(b"f\xff\xfe"), b"x").unwrap();
+    }
     let prefix = format!("{tmp}/").into_bytes();
 
     // --- ring, watcher, watches ------------------------------------------------------------------
@@ -346,22 +353,29 @@ fn one_case(r: &mut Rng, index: usize, silent_panic: &Arc<Mutex<Option<String>>>
     let n_watch = r.below(5) as usize;
     let mut watch_calls: Vec<(i32, Vec<u8>)> = Vec::new(); // (wd, relative path) in call order
     for _ in 0..n_watch {
-        let rel = *r.pick(&WATCH_POOL);
-        let full = format!("{tmp}/{rel}");
-        let res = match r.below(3) {
-            0 if !rel.starts_with('f') => watcher.watch_directory(PathBuf::from(&full), Interest::ALL, Recursive::No),
-            1 => watcher.watch_file(PathBuf::from(&full), Interest::ALL),
-            _ => watcher.watch(PathBuf::from(&full), Interest::ALL, Recursive::No),
+        let rel: &[u8] = *r.pick(&WATCH_POOL);
+        let full: Vec<u8> = [tmp.as_bytes(), b"/", rel].concat();
+        let full_path = || {
+            use std::os::unix::ffi::OsStringExt;
+            PathBuf::from(std::ffi::OsString::from_vec(full.clone()))
         };
+        let res = match r.below(3) {
+            0 if rel[0] != b'f' => watcher.watch_directory(full_path(), Interest::ALL, Recursive::No),
+            1 => watcher.watch_file(full_path(), Interest::ALL),
+            _ => watcher.watch(full_path(), Interest::ALL, Recursive::No),
+        };
+        if std::str::from_utf8(rel).is_err() {
+            tags.push("watched-path:not-utf8".into());
+        }
         if let Err(e) = res {
-            oracle.get_or_insert(format!("watching {rel} failed: {e}"));
+            oracle.get_or_insert(format!("watching {:?} failed: {e}", String::from_utf8_lossy(rel)));
             continue;
         }
         // The descriptor the kernel gave this path (IN_MASK_ADD: nothing is replaced).
         let c = CString::new(full.clone()).unwrap();
         let wd = unsafe { libc::inotify_add_watch(ifd, c.as_ptr(), libc::IN_MASK_ADD | libc::IN_ACCESS) };
-        assert!(wd > 0, "inotify_add_watch on {full}");
-        watch_calls.push((wd, rel.as_bytes().to_vec()));
+        assert!(wd > 0, "inotify_add_watch on {:?}", String::from_utf8_lossy(&full));
+        watch_calls.push((wd, rel.to_vec()));
     }
     let mut table: HashMap<i32, Vec<u8>> = HashMap::new();
     for (wd, rel) in &watch_calls {
